@@ -46,6 +46,116 @@ theorem form_setter_order : Generated.formSetterSteps = ["convert", "commit"] :=
 /-- `copy(frame=…, form=…)` performs both conversions (either order gives the same state) -/
 theorem copy_order : Generated.copySteps = ["frame", "form"] ∨ Generated.copySteps = ["form", "frame"] := by decide
 
+/-! ## the names under which a form is requested
+
+`get_form` (and with it `StateVector(…, form=name, …)`, `sv.form = name`, `sv.copy(form=name)`) resolves a name through the
+table `forms._cache`, regenerated into `Generated.formsCache` on every run.  The statement "each name gives the elements of
+THAT form" needs the table to be the documented one: every form under its full name, the four variants of the keplerian
+form also under the name without the prefix `keplerian_` (doc/source/api/orbits.rst, "Some forms have aliases"). -/
+
+/-- the documented names of the ten forms -/
+def documentedFormNames : List (String × String) :=
+  [("cartesian", "cartesian"), ("spherical", "spherical"), ("cylindrical", "cylindrical"), ("keplerian", "keplerian"),
+   ("keplerian_eccentric", "keplerian_eccentric"), ("keplerian_mean", "keplerian_mean"),
+   ("keplerian_circular", "keplerian_circular"), ("keplerian_mean_circular", "keplerian_mean_circular"),
+   ("equinoctial", "equinoctial"), ("tle", "tle"),
+   ("eccentric", "keplerian_eccentric"), ("mean", "keplerian_mean"), ("circular", "keplerian_circular"),
+   ("mean_circular", "keplerian_mean_circular")]
+
+/-- every documented name is a key of the table regenerated from the source and leads to the form of that name -/
+theorem form_names_as_documented :
+    ∀ p ∈ documentedFormNames, Generated.formsCache.lookup p.1 = some p.2 := by decide
+
+/-- the table regenerated from the source has no other key, and no key leading elsewhere -/
+theorem form_names_only_documented :
+    ∀ p ∈ Generated.formsCache, documentedFormNames.lookup p.1 = some p.2 := by decide
+
+/-- every node of the regenerated forms graph is reachable under its own name, and every name leads to a node of the graph -/
+theorem form_names_cover_graph :
+    (∀ f ∈ Generated.formsNames, Generated.formsCache.lookup f = some f) ∧
+    (∀ p ∈ Generated.formsCache, p.2 ∈ Generated.formsNames) := by decide
+
+/-- the documented short names: the full name is `keplerian_` followed by the short one (no other abbreviation rule) -/
+theorem short_names_are_suffixes :
+    ∀ p ∈ Generated.formsCache, p.1 = p.2 ∨ "keplerian_" ++ p.1 = p.2 := by decide
+
+theorem mem_of_lookup {β : Type} {k : String} {v : β} : ∀ {l : List (String × β)}, l.lookup k = some v → (k, v) ∈ l
+  | [], h => by simp [List.lookup] at h
+  | (a, b) :: t, h => by
+    by_cases hk : k = a
+    · subst hk
+      simp [List.lookup] at h
+      subst h
+      exact List.mem_cons_self
+    · have hk' : (k == a) = false := by simpa using hk
+      simp only [List.lookup, hk'] at h
+      exact List.mem_cons_of_mem _ (mem_of_lookup h)
+
+/-- two tables each of whose entries is found in the other answer every key alike -/
+theorem lookup_eq_of_mutual {β : Type} {l1 l2 : List (String × β)}
+    (h12 : ∀ p ∈ l1, l2.lookup p.1 = some p.2) (h21 : ∀ p ∈ l2, l1.lookup p.1 = some p.2) (k : String) :
+    l1.lookup k = l2.lookup k := by
+  cases h1 : l1.lookup k with
+  | some v => exact (h12 _ (mem_of_lookup h1)).symm
+  | none =>
+    cases h2 : l2.lookup k with
+    | none => rfl
+    | some w =>
+      have := h21 _ (mem_of_lookup h2)
+      simp only [h1] at this
+      exact absurd this (by simp)
+
+/-- **`get_form` for EVERY string**: a name (in any case) resolves to the form documented under it, and a string that is no
+documented name is an `UnknownFormError` — the machine's `canonForm` is `get_form` (shape checked on every run) over the
+regenerated table -/
+theorem canonForm_documented (name : String) : canonForm name = documentedFormNames.lookup name.toLower := by
+  unfold canonForm
+  exact lookup_eq_of_mutual form_names_only_documented form_names_as_documented _
+
+/-- `sv.form = name` for any spelling: the same as `sv.form = <the full name documented under it>` once that full name is
+known to resolve to itself (which `form_names_cover_graph` gives for the ten forms) -/
+theorem setForm_by_any_documented_name (fuel : Nat) (s : St) (name full : String)
+    (h : documentedFormNames.lookup name.toLower = some full) :
+    applyOp fuel s (.setForm name) = (setFormSt fuel s full).map (fun s' => (s', Out.done)) := by
+  simp only [applyOp, canonForm_documented, h]
+
+/-- a string that is no documented name changes nothing and reports `UnknownFormError` -/
+theorem setForm_undocumented_name (fuel : Nat) (s : St) (name : String)
+    (h : documentedFormNames.lookup name.toLower = none) :
+    applyOp fuel s (.setForm name) = some (s, Out.unknownForm) := by
+  simp only [applyOp, canonForm_documented, h]
+
+/-! ### the names of the six elements -/
+
+/-- the documented element names of each form (docstrings of the ten `Form` constants) -/
+def documentedParamNames : List (String × List String) :=
+  [("cartesian", ["x", "y", "z", "vx", "vy", "vz"]), ("spherical", ["r", "θ", "φ", "r_dot", "θ_dot", "φ_dot"]),
+   ("cylindrical", ["r", "θ", "z", "r_dot", "θ_dot", "vz"]), ("keplerian", ["a", "e", "i", "Ω", "ω", "ν"]),
+   ("keplerian_eccentric", ["a", "e", "i", "Ω", "ω", "E"]), ("keplerian_mean", ["a", "e", "i", "Ω", "ω", "M"]),
+   ("keplerian_circular", ["a", "ex", "ey", "i", "Ω", "u"]), ("keplerian_mean_circular", ["a", "ex", "ey", "i", "Ω", "α"]),
+   ("equinoctial", ["a", "ex", "ey", "ix", "iy", "l"]), ("tle", ["i", "Ω", "e", "ω", "M", "n"])]
+
+/-- the documented aliases of the element names -/
+def documentedAlt : List (String × String) :=
+  [("theta", "θ"), ("phi", "φ"), ("raan", "Ω"), ("Omega", "Ω"), ("omega", "ω"), ("nu", "ν"), ("theta_dot", "θ_dot"),
+   ("phi_dot", "φ_dot"), ("aol", "u"), ("H", "E"), ("x_dot", "vx"), ("y_dot", "vy"), ("z_dot", "vz"), ("alpha", "α"), ("maol", "α")]
+
+theorem param_names_as_documented :
+    (∀ p ∈ documentedParamNames, Generated.formsParamNames.lookup p.1 = some p.2) ∧
+    (∀ p ∈ Generated.formsParamNames, documentedParamNames.lookup p.1 = some p.2) := by decide
+
+/-- the i-th number of a form is addressed by the documented name, for every form name whatsoever -/
+theorem paramNames_documented (form : String) :
+    Generated.formsParamNames.lookup form = documentedParamNames.lookup form :=
+  lookup_eq_of_mutual param_names_as_documented.2 param_names_as_documented.1 _
+
+/-- every documented alias is in `Form.alt` with its documented target; an alias the documentation does not list may exist,
+but none hides an element name and each points to an element name -/
+theorem element_aliases_as_documented :
+    (∀ p ∈ documentedAlt, Generated.formsAlt.lookup p.1 = some p.2) ∧
+    (∀ p ∈ Generated.formsAlt, (Generated.formsParamNames.any (fun q => q.2.contains p.1)) = false ∧
+      (Generated.formsParamNames.any (fun q => q.2.contains p.2)) = true) := by decide
+
 /-! ## no hidden state -/
 
 /-- everything of the object but the slot -/
